@@ -12,4 +12,6 @@ func checkC02(p *Prog, r *Report) {
 	checkR02c(p, r)
 	checkR02d(p, r)
 	checkR02e(p, r)
+	r.Rule("R02f", "multi-result agreement: every construction of a coq.Binding with several names takes its expression from the mode-aware translation func(ast.Expr, bool) coq.Expr with the flag len(<names' source>) == 2 (define and assign forms agree), unless the facts bound the number of names by one", 2)
+	checkR02f(p, r)
 }
